@@ -481,6 +481,31 @@ def concurrent_calls(run):
     core.explore(body, on_path)
 
 
+LAUNCH_REPLAY = '''import sys, subprocess; sys.path.insert(0, %(repo)r)
+import multiprocessing.connection as MC
+from supp import remote
+procs, clock = [], [0.0]
+class FakePopen(object):
+    alive = True
+    def __init__(self, args, env=None): procs.append(self)
+    def kill(self): self.alive = False
+    terminate = kill
+    def wait(self, timeout=None): return 0
+    def poll(self): return None if self.alive else -9
+def never(addr): raise ConnectionRefusedError('not yet')
+subprocess.Popen, MC.Client = FakePopen, never
+remote.time.time = lambda: clock[0]
+remote.time.sleep = lambda t: clock.__setitem__(0, clock[0] + t)
+env = remote.Environment()
+try:
+    env._run(); print('not reproduced: connected?')
+except Exception as e:
+    left = [p for p in procs if p.alive]
+    print('launch gave up: %%s; processes launched %%d, still running %%d' %% (e, len(procs), len(left)))
+    print('REPRODUCED: the server process that never accepted is left running' if left else 'not reproduced')
+'''
+
+
 @harness(['C16'], 'supp.remote.Environment._run')
 def run_launch(run):
     """_run(): launches exactly one process; the attribute `conn` does not exist before the connection is established (other threads test its
@@ -489,6 +514,7 @@ def run_launch(run):
     import supp.remote as R
     import subprocess
     import multiprocessing.connection as MC
+    run.concretise = lambda model, ob: {'input': 'a server process that never accepts the connection', 'script': LAUNCH_REPLAY % {'repo': core.REPO}}
 
     def go(path):
         for fails, label in ((0, 'accepts-at-once'), (3, 'accepts-at-the-fourth-attempt'), (10 ** 9, 'never-accepts')):
@@ -496,8 +522,21 @@ def run_launch(run):
             seen, launches, clock = [], [], [0.0]
 
             class FakePopen(object):
+                alive = True
+
                 def __init__(self, args, env=None):
-                    launches.append(args)
+                    launches.append(self)
+
+                def kill(self):
+                    self.alive = False
+
+                terminate = kill
+
+                def wait(self, timeout=None):
+                    return 0
+
+                def poll(self):
+                    return None if self.alive else -9
 
             def fake_client(addr):
                 seen.append(hasattr(env, 'conn'))
@@ -523,6 +562,9 @@ def run_launch(run):
             if fails < 10 ** 9:
                 prove('connected-afterwards', exc is None and getattr(env, 'conn', None) == 'the connection', path=path)
             else:
+                prove('failed-launch-leaves-no-process', bool(launches) and not any(p_.alive for p_ in launches),
+                      clause='the process that never accepted is ended before _run gives up: the next attempt launches another one, and exactly one '
+                             'server may exist', path=path)
                 prove('time-limit-raises-and-leaves-no-connection', exc is not None and not hasattr(env, 'conn') and len(seen) < 100,
                       clause='a server that never accepts: _run raises after the time limit and `conn` does not exist [%r, attempts %d]' % (exc, len(seen)), path=path)
         run.case = None
